@@ -9,7 +9,7 @@ CLAIMS = {
                    'from the failed command to exit(); failure-budget guards (decrement only on failure and '
                    'only while non-zero, starts guarded, reaping not guarded); wait-status decoding guarded '
                    'by WIFEXITED; missing-source error guard and its precedence over Builder::Build; no '
-                   'failure edge of a fallible call reaches a success return in build.cc / ninja.cc. Builder::Build returns the recorded exit code only after a command failure was recorded; an output without a build-log entry is dirty (known finding: generator rules are exempt, so a failed generator command is not retried). Builder::Build returns ExitFailure from its stuck exit. Under WIFEXITED the exit code is returned as it is (an exit code 130/143 is a failure of the command, not an interrupt of the build).',
+                   'failure edge of a fallible call reaches a success return in build.cc / ninja.cc. Builder::Build returns the recorded exit code only after a command failure was recorded; an output without a build-log entry is dirty (known finding: generator rules are exempt, so a failed generator command is not retried). Builder::Build returns ExitFailure from its stuck exit. Under WIFEXITED the exit code is returned as it is (an exit code 130/143 is a failure of the command, not an interrupt of the build). FinishCommand replaces result.status only where the command is known to have succeeded (a failure code is never overwritten).',
         'not_decided': 'which commands may legitimately start after a failure under a given schedule.',
     },
     'C06': {
@@ -24,7 +24,7 @@ CLAIMS = {
                    'command always reaches a function that releases on all of its paths, Abort releases all '
                    'active edges; process-exit sites reachable while slots are held are enumerated against a '
                    'reasoned table; Jobserver::Slot cannot be copied or forged (compile-fail witnesses); the '
-                   'console pool is the depth-1 pool. A moved-from Jobserver::Slot is invalid on every path of both move operations (release-twice is a no-op). RealCommandRunner::GetActiveEdges reports every entry of subproc_to_edge_ (Abort/Cleanup/ClearJobTokens act on that list); an explicit -j (and -n) disables the jobserver client and only a jobserver client lifts the parallelism bound; targets planned during the build are followed by a scheduling pass for ready edges. SubprocessSet::running_ keeps its order while the pollfd array built from it is in use; a completion that is already queued is handed out without calling DoWork() again. A saved position in the pollfd array (the jobserver\'s) names the entry that is pushed next under the conditions of its use.',
+                   'console pool is the depth-1 pool. A moved-from Jobserver::Slot is invalid on every path of both move operations (release-twice is a no-op). RealCommandRunner::GetActiveEdges reports every entry of subproc_to_edge_ (Abort/Cleanup/ClearJobTokens act on that list); an explicit -j (and -n) disables the jobserver client and only a jobserver client lifts the parallelism bound; targets planned during the build are followed by a scheduling pass for ready edges. SubprocessSet::running_ keeps its order while the pollfd array built from it is in use; a completion that is already queued is handed out without calling DoWork() again. A saved position in the pollfd array (the jobserver\'s) names the entry that is pushed next under the conditions of its use. After SIGCHLD every running console subprocess is polled (s_sigchld_received is a 0/1 flag).',
         'not_decided': 'the numeric -j / load-average capacity formula (CanRunMore), "never idles" and '
                        '"always terminates" (liveness).',
     },
@@ -55,7 +55,7 @@ CLAIMS = {
                    'the loader entry; scan-time loads happen only behind the pending test and never while the '
                    'producer still has to run; at build time every output of a finished edge is examined, the '
                    'plan walk skips an edge only if it is ready or not in the plan; parsed paths are '
-                   'canonicalised before interning. On every visit of an edge the scan stats its outputs before computing their dirtiness; validations found by a mid-build re-scan are planned unconditionally and followed by a scheduling pass. The re-check used by restat pruning stores exactly the verdict of all(most_recent_input) (no shortcut while a dyndep file is pending). Node::dyndep_pending_ has no writer besides its setter (no per-scan reset clears it); a binding is added to edge->env_ only when that scope is the edge\'s own (Edge::has_own_env_) or was just created for it (D22).',
+                   'canonicalised before interning. On every visit of an edge the scan stats its outputs before computing their dirtiness; validations found by a mid-build re-scan are planned unconditionally and followed by a scheduling pass. The re-check used by restat pruning stores exactly the verdict of all(most_recent_input) (no shortcut while a dyndep file is pending). Node::dyndep_pending_ has no writer besides its setter (no per-scan reset clears it); a binding is added to edge->env_ only when that scope is the edge\'s own (Edge::has_own_env_) or was just created for it (D22). Every edge flipped to kWantToStart by RefreshDyndepDependents is passed to EdgeWanted.',
         'not_decided': 'equivalence with the manifest that has the information written in; schedule-dependent '
                        're-want logic in RefreshDyndepDependents.',
     },
@@ -138,7 +138,7 @@ CLAIMS = {
                    '(a vanished discovered dep means rebuild, not error); deps are recorded for every output and a '
                    'failed extraction records nothing; depfile/gcc/msvc paths are canonicalised before interning; '
                    'strong typestate: a first scan ends with discovered deps spliced in or deps_missing_ set '
-                   '(violated today: known finding). With a deps type and outside a dry run no success return of FinishCommand avoids RecordDeps; CLParser consults the input-file-name filter only for lines the /showIncludes filter did not recognise. The follow-up output check (after discovered inputs are known) gives no clean verdict with a log entry and a newest input unless the logged mtime was compared with that input (C10.CC). After ReadFile of a depfile the loaders go on only behind a branch that established Okay or NotFound (an unreadable depfile is an error).',
+                   '(violated today: known finding). With a deps type and outside a dry run no success return of FinishCommand avoids RecordDeps; CLParser consults the input-file-name filter only for lines the /showIncludes filter did not recognise. The follow-up output check (after discovered inputs are known) gives no clean verdict with a log entry and a newest input unless the logged mtime was compared with that input (C10.CC). After ReadFile of a depfile the loaders go on only behind a branch that established Okay or NotFound (an unreadable depfile is an error). What DepfileParser::Parse adds to ins_ does not depend on the targets seen.',
         'not_decided': 'metamorphic equality with the variant of a scenario in which the dependency is declared.',
     },
     'C08': {
@@ -168,7 +168,7 @@ CLAIMS = {
                    'Load reads; oversized records are refused before any write and the stdio buffer holds a whole '
                    'record; all fwrites precede one fflush and memory is updated only after it succeeded; the '
                    '"unchanged" shortcut compares mtime, count and every element (no unscaled memcmp); recompaction '
-                   'removes a stale temp, resets all ids, drops only empty/non-live entries, swaps, then replaces. The deps-log header is written exactly when the opened file is empty; a path record enters the node table (set_id, nodes_.push_back) only after the checksum and duplicate-id tests passed. RecordDeps calls RecordId only for a node whose id is still negative at the call. A node is created for a path record only where the path left after stripping the padding is known to be non-empty.',
+                   'removes a stale temp, resets all ids, drops only empty/non-live entries, swaps, then replaces. The deps-log header is written exactly when the opened file is empty; a path record enters the node table (set_id, nodes_.push_back) only after the checksum and duplicate-id tests passed. RecordDeps calls RecordId only for a node whose id is still negative at the call. A node is created for a path record only where the path left after stripping the padding is known to be non-empty. A failed recompaction fails OpenForWrite; every validated deps record reaches UpdateDeps (the later record wins unconditionally).',
         'not_decided': '"exactly the complete records" for all byte strings; cross-session id consistency as a '
                        'run-time invariant; padding arithmetic values.',
     },
@@ -185,7 +185,7 @@ CLAIMS = {
                    '(compile-fail), build-level values are evaluated in the enclosing scope and paths in the edge '
                    'scope; input kinds are collected in order with their counters, stored after all AddIn calls and '
                    'kept in sync by later erases; manifest, default, command-line and clean paths are canonicalised '
-                   'before interning and no shell-escaped lookup feeds a node identity or file-system call. The std::string overload of CanonicalizePath always delegates to the char* overload (one definition of node identity). Rule::GetBinding answers "no binding" only for a key that is not in the map; the parser of an included / subninja file is constructed with the parent\'s options. Lookup order build, rule, file also for statements without bindings: the shared file scope is consulted only after the rule (D21); every parsed top-level `name = value` is bound before the next statement; the reserved rule variables are the documented eleven, each recognised by a whole-string equality; ParseFileInclude gets new_scope = false on every `include` path and true on every `subninja` path.',
+                   'before interning and no shell-escaped lookup feeds a node identity or file-system call. The std::string overload of CanonicalizePath always delegates to the char* overload (one definition of node identity). Rule::GetBinding answers "no binding" only for a key that is not in the map; the parser of an included / subninja file is constructed with the parent\'s options. Lookup order build, rule, file also for statements without bindings: the shared file scope is consulted only after the rule (D21); every parsed top-level `name = value` is bound before the next statement; the reserved rule variables are the documented eleven, each recognised by a whole-string equality; ParseFileInclude gets new_scope = false on every `include` path and true on every `subninja` path. edge->pool_ is the result of State::LookupPool on that edge\'s own GetBinding("pool").',
         'not_decided': 'that the evaluated graph equals the one defined by the manual for every manifest; the lexer\'s '
                        'token grammar (varname alphabet, $-escapes) beyond the sentinel proof of C13.',
     },
@@ -201,7 +201,7 @@ CLAIMS = {
                    'condition (known findings: include cycle, `-t targets depth 0`); nullable results (memchr, getenv, '
                    'fopen, Lookup*, GetDeps, GetBinding) are known non-null at every dereference; begin() of a container is '
                    'dereferenced only where it is known non-empty; std::get on the result variant is guarded by '
-                   'holds_alternative. Zero-expected rules are validated by planted controls on every run. A local fixed-size array handed to a call with an explicit length is accessed within its size (interval bounds with return models for read/fread; the would-be length returned by snprintf is not a bound). Loop progress: every loop whose condition compares a local position/pointer with a bound or tests the byte it points at advances that position on every trip (disjunctive abstract interpretation with find/memchr/strpbrk models, nv/loopprog.py; undecided loops are listed), and every input-driven loop (for(;;), while(ReadLine/PeekToken/getopt)) has no way round without a consuming call. The rule-variable cycle flag is armed before the nested evaluation and never disarmed; a NUL-terminated scan never steps over a byte that may be the terminator. The format argument of every printf-like call (libc and ninja\'s own variadic reporters, found as a fixpoint from the v*printf sinks) is program text, never data (one reasoned exemption); unsigned `x - c` positions are guarded by `x >= c`; every loop around fread/read/fgets branches on the read\'s result or ferror(). No throwing conversion (std::stoi family) or at() is used; v[0] / front() / back() of a local container is reached only where it is known non-empty (guard fact, or filled on every path; one reasoned exemption).',
+                   'holds_alternative. Zero-expected rules are validated by planted controls on every run. A local fixed-size array handed to a call with an explicit length is accessed within its size (interval bounds with return models for read/fread; the would-be length returned by snprintf is not a bound). Loop progress: every loop whose condition compares a local position/pointer with a bound or tests the byte it points at advances that position on every trip (disjunctive abstract interpretation with find/memchr/strpbrk models, nv/loopprog.py; undecided loops are listed), and every input-driven loop (for(;;), while(ReadLine/PeekToken/getopt)) has no way round without a consuming call. The rule-variable cycle flag is armed before the nested evaluation and never disarmed; a NUL-terminated scan never steps over a byte that may be the terminator. The format argument of every printf-like call (libc and ninja\'s own variadic reporters, found as a fixpoint from the v*printf sinks) is program text, never data (one reasoned exemption); unsigned `x - c` positions are guarded by `x >= c`; every loop around fread/read/fgets branches on the read\'s result or ferror(). No throwing conversion (std::stoi family) or at() is used; v[0] / front() / back() of a local container is reached only where it is known non-empty (guard fact, or filled on every path; one reasoned exemption). Byte-wise read loops (fgetc) test for EOF; no in-place loop over Node::out_edges_ reaches Node::AddOutEdge from its body (D23, D24).',
         'not_decided': 'memory safety in general (index arithmetic in ElideMiddle, CanonicalizePath, the in-place de-escaping writes of the depfile parser); termination of the re2c scanner loops beyond the NUL sentinel argument, of worklist / plan loops and of loops listed as undecided.',
     },
     'C16': {
@@ -242,7 +242,7 @@ CLAIMS = {
                    'regardless of the result, plan totals mirror command_edges_ under the same non-phony guard and are '
                    'cleared between builds; the console is locked/unlocked only for console-pool edges (and unconditionally '
                    'unlocked at BuildFinished), nothing is written while locked, held-back output keeps its explicit length '
-                   'and is flushed before the buffer is cleared. What is flushed on console unlock is cleared on every path before SetConsoleLocked returns; StripAnsiEscapeCodes walks the whole input in constant steps, copies every non-ESC byte and leaves its loop early only when ESC is the last byte. Only the Subprocess itself writes its pipe descriptor, and it closes the pipe only when read() returned no data. LinePrinter::Print / PrintOrBuffer write or buffer their text on every path; stdout is set to line buffering unconditionally at the start of real_main (C20.O2).',
+                   'and is flushed before the buffer is cleared. What is flushed on console unlock is cleared on every path before SetConsoleLocked returns; StripAnsiEscapeCodes walks the whole input in constant steps, copies every non-ESC byte and leaves its loop early only when ESC is the last byte. Only the Subprocess itself writes its pipe descriptor, and it closes the pipe only when read() returned no data. LinePrinter::Print / PrintOrBuffer write or buffer their text on every path; stdout is set to line buffering unconditionally at the start of real_main (C20.O2). For a console-pool edge BuildEdgeStarted reaches the terminal lock whatever the terminal is, and prints the start line whether or not it is a dry run.',
         'not_decided': 'non-interleaving and counter consistency as trace properties over schedules; elision and percentage arithmetic.',
     },
     'C07': {
@@ -255,7 +255,7 @@ CLAIMS = {
                    'then the depfile, finally the lock file; children are signalled by process group (except console '
                    'children), deleted afterwards, and destroying an unreaped subprocess waits for it; signal handlers make '
                    'no calls and store only to volatile sig_atomic_t; log records are flushed before success / memory '
-                   'updates and rewrites go through ReplaceContent. Cleanup covers every started, not yet reaped command (GetActiveEdges is a full-range loop over subproc_to_edge_). ~SubprocessSet restores the signal handlers before the signal mask; an empty depfile is treated like a missing one (edge dirty).',
+                   'updates and rewrites go through ReplaceContent. Cleanup covers every started, not yet reaped command (GetActiveEdges is a full-range loop over subproc_to_edge_). ~SubprocessSet restores the signal handlers before the signal mask; an empty depfile is treated like a missing one (edge dirty). Once the runner has erased an edge from subproc_to_edge_ it returns a CommandCompleted naming that edge (also for a command killed by the interrupt).',
         'not_decided': 'a crash at an arbitrary instruction (SIGKILL), which needs the C08/C09 loaders and the dirty logic to '
                        'compose at run time; real-signal timing.',
     },
